@@ -519,6 +519,8 @@ func TransformJSONProtoToDSL(model *openfgav1.AuthorizationModel, opts ...Transf
 	}
 
 	if isModularModel {
+		// sort a copy: the slice belongs to the caller's model
+		typeDefs = slices.Clone(typeDefs)
 		slices.SortStableFunc(typeDefs, func(a, b *openfgav1.TypeDefinition) int {
 			return sortByModule(
 				a.GetType(), b.GetType(),
